@@ -632,6 +632,18 @@ func (e *Env) call(x *SExpr) Val {
 			return e.fail("unknown type %s", x.Args[1].Name)
 		}
 		return boolVal(eq(a.If[0], vc.typeTag(t)))
+	case "asiface":
+		// asiface(x, "pkg.Iface"): the same dynamic value viewed through another interface type
+		a := argv(0)
+		if a.K != KIface || x.Args[1].Op != "str" {
+			return e.fail("asiface(iface, \"type\")")
+		}
+		t := resolveType(x.Args[1].Name, e.pkg)
+		if t == nil {
+			return e.fail("unknown type %s", x.Args[1].Name)
+		}
+		a.T = t
+		return a
 	case "iface_ptr":
 		// iface_ptr(x, "*pkg.T"): payload viewed as pointer
 		a := argv(0)
